@@ -141,6 +141,16 @@ prop("C02", True,
      "call-graph reach + inter-procedural taint + difference-bound (zone) prover with memory forwarding over go/ssa",
      "DESIGN.md §2 C02")
 
+prop("C17", True,
+     "Static check for all buffers, cursor positions and size arguments: HasBytes' summary is extracted and verified (pure; nil iff 0 <= offset+size <= len(data)); the type invariant Decode.offset >= 0 is proved inductively over all 7 stores to the field; "
+     "with both, all 20 index/slice/make obligations in the methods of *Decode are discharged by the difference-bound prover (summary imported at the dominating call, sum atoms for offset+size); failing arm (lasterror stored, zero returned, no cursor movement or deferred advance), "
+     "advance == size checked, bytes read == data[offset:offset+size] for every primitive. IPP: tag tables of encode side (composite literals) and decode side agree, per value type the decoder's first-value operation sequence mirrors the encoder's widths, additional values are read "
+     "in a loop while the peeked tag equals the value's tag, every look-ahead byte is given back on each exit path (path-sum over the CFG), no use of a nil value after an unmatched tag or failed assertion, response/event fields echo the decoded request. Full round-trip equality over all "
+     "attribute combinations is not decided.",
+     "Trusts encoding/binary; the decoder is used single-threaded per request.",
+     "difference-bound prover with guard-function summaries and an inductive field invariant + sibling encode/decode cross-check + CFG path-sum rule over go/ssa",
+     "DESIGN.md §2 C17")
+
 PENDING = {
  "C01": "check not built yet in this revision (design: DESIGN.md §2 C01)",
 }
